@@ -142,6 +142,8 @@ def judge(run, out):
                     return "CAS history is not a sequential counter history at: " + l
                 if v == 0:
                     return "counter left zero: " + l
+                if abs(d - v) != 1:
+                    return "a successful compare-exchange did not change the counter by exactly one: " + l
                 cur = d
             m = re.match(r"T\d+ note (retain|release)=(-?\d+)", l)
             if m:
@@ -152,6 +154,11 @@ def judge(run, out):
                     return "operation succeeded after the counter reached zero: " + l
         if zero_releases > 1:
             return "%d releases observed zero" % zero_releases
+        ok_ret = sum(1 for l in out if re.match(r"T\d+ note retain=[1-9]", l))
+        ok_rel = sum(1 for l in out if re.match(r"T\d+ note release=\d", l))
+        if cur != run["init"] + ok_ret - ok_rel:
+            return ("counter is %d after %d successful retains and %d successful releases from %d"
+                    % (cur, ok_ret, ok_rel, run["init"]))
         if int(kv.get("ref", -1)) != cur:
             return "final value %s differs from the CAS history %d" % (kv.get("ref"), cur)
         total_release = sum(p.count("d") for p in run["progs"])
